@@ -49,6 +49,7 @@ func liesCatalogue() []liesItem {
 	for rpc := range p2px.ByzKinds {
 		rpcs = append(rpcs, rpc)
 	}
+	rpcs = append(rpcs, "slowloris")
 	sort.Strings(rpcs)
 	var out []liesItem
 	for _, regime := range []string{"plain", "instant"} {
@@ -58,6 +59,12 @@ func liesCatalogue() []liesItem {
 		}
 		for _, rpc := range rpcs {
 			if rpc == "checkpoint" && regime == "plain" {
+				continue
+			}
+			if rpc == "slowloris" {
+				// not a wire lie but a resource attack: half-open RPC streams from
+				// the honest peer's subnet, three budgets
+				out = append(out, liesItem{rpc, "half-open-streams", regime, "", 2}, liesItem{rpc, "half-open-streams", regime, "", 4}, liesItem{rpc, "half-open-streams", regime, "", 6})
 				continue
 			}
 			for _, kind := range p2px.ByzKinds[rpc] {
@@ -116,6 +123,14 @@ func liesCase(it liesItem) C11Case {
 		c.Bootstrap = liesBootstrap
 	}
 	c.Byz = []ByzSpec{{Tip: h, Corr: p2px.Corruption{RPC: it.RPC, Kind: it.Kind, Arg: it.Arg}, Dial: len(it.RPC) > 5 && it.RPC[:5] == "relay"}}
+	if it.RPC == "slowloris" {
+		c.Byz = nil
+		c.HonestDelayMS = 0
+		c.Slow = &SlowSpec{L: it.Arg, S: it.Arg, HoldMS: 2500, Late: 2}
+		if it.Arg == 6 {
+			c.Slow.L = 3 // subnet budget above the per-peer limit
+		}
+	}
 	c.Tree = tc
 	return c
 }
@@ -149,7 +164,7 @@ func TestC11Lies(t *testing.T) {
 		cs.Add("lies_enumerated", 1)
 		cs.Class("enumerated:" + it.Regime)
 		if err == nil {
-			if len(info.Delivered) == 1 && info.Delivered[0] {
+			if (len(info.Delivered) == 1 && info.Delivered[0]) || (c.Slow != nil && info.SlowHeld) {
 				cs.Add("lies_delivered", 1)
 			} else {
 				cs.Inconclusive("lie-not-reached:" + it.key())
